@@ -117,6 +117,12 @@ func CreateStorageTx(ctx context.Context, root *treechangeproto.RawTreeChangeWit
 	if err != nil {
 		return nil, err
 	}
+	// Callers check the tombstone before they start (PutSyncTree, remote fetch), but a deletion
+	// can be recorded (and processed by the deleter) between that check and this transaction:
+	// never create a storage for an id which is queued for deletion or deleted
+	if entry, entryErr := headStorage.GetEntry(ctx, root.Id); entryErr == nil && entry.DeletedStatus != headstorage.DeletedStatusNotDeleted {
+		return nil, treestorage.ErrTreeStorageAlreadyDeleted
+	}
 	firstOrder := lexId.Next("")
 	stChange := StorageChange{
 		RawChange:       root.RawChange,
